@@ -10,9 +10,14 @@ from harness.valuations import valuations
 
 
 def family_texts(fams, rep, rnd, cap=None):
+    from harness.common import seed
     out = []
     for fam in fams:
-        sents, r = grammar.enumerate_family(fam)
+        if isinstance(fam, tuple):      # ('rand', n, depth): random deep terms, reproducible through VERIF_SEED
+            sents, r = grammar.enumerate_family('rand', rand=(fam[1], fam[2], 1000 + seed()))
+            fam = 'rand%d' % fam[2]
+        else:
+            sents, r = grammar.enumerate_family(fam)
         rep.add_tlc(r)
         if cap and len(sents) > cap:
             sents = rnd.sample(sents, cap)
